@@ -282,6 +282,8 @@ def propagate(exprs, shapes, kwargs):
                 val[(name, r)] = int(x)
         elif not isinstance(v, (tuple, list)):
             val[(name, None)] = int(v)
+    if any(v < 1 for v in val.values()):
+        return None  # lengths are positive integers: nothing can be "determined by substitution"
     expanded = [expand_with_counts(e, counts) for e in exprs]
 
     def known(it):
